@@ -584,6 +584,32 @@ def run(ctx, report):
     else:
         R4.violation('_dis:bytes', '_dis:bytes', 'raw bytes are no longer the prefix of the input that was consumed', where(arch, dis))
 
+    # a decode that reports "no instruction" leaves the caller's stream where it was: either every failing exit of _dis rewinds,
+    # or the entry point restores the offset it saved before calling _dis
+    entry = arch.method('x86_mnemo_metaclass', 'dis')
+    ps_ = [a.arg for a in entry.args.args]
+    stream = ps_[1] if len(ps_) > 1 else 'op'
+    saved = [n.targets[0].id for n in walk_no_nested(entry) if isinstance(n, ast.Assign) and isinstance(n.targets[0], ast.Name)
+             and (u(n.value) == '%s.offset' % stream or u(n.value).replace(' ', '') == "getattr(%s,'offset',None)" % stream)]
+    fail_ifs = [n for n in walk_no_nested(entry) if isinstance(n, ast.If) and any(isinstance(x, ast.Return) and (x.value is None or u(x.value) == 'None') for x in n.body)]
+    entry_restores = any(isinstance(x, ast.Assign) and u(x.targets[0]) == '%s.offset' % stream and isinstance(x.value, ast.Name) and x.value.id in saved
+                         for f_ in fail_ifs for st in f_.body for x in ast.walk(st))
+    fails = [n for n in walk_no_nested(dis) if isinstance(n, ast.Return) and (n.value is None or u(n.value) in ('None', 'False'))]
+
+    def rewinds_before(ret):
+        blk = parent(ret)
+        for fld in ('body', 'orelse', 'finalbody'):
+            lst = getattr(blk, fld, None)
+            if isinstance(lst, list) and ret in lst:
+                i_ = lst.index(ret)
+                return i_ > 0 and u(lst[i_ - 1]).replace(' ', '') == 'bin.offset=init_offset'
+        return False
+    dis_rewinds = bool(fails) and all(rewinds_before(r) for r in fails)
+    if entry_restores or dis_rewinds:
+        R4.ok('dis:failure-rewinds', sample='a failed decode restores the stream offset (%s)' % ('entry point' if entry_restores else 'every failing exit of _dis'))
+    else:
+        R4.violation('dis:failure-rewinds', 'dis:failure-leaves-offset', 'when _dis finds no instruction (%d failing exits) the bytes it consumed stay consumed: the same dis() call on the same '
+                     'stream then decodes from the middle of the rejected bytes' % len(fails), where(arch, entry), witness='s = bin_stream(b"\\x0f\\x0b\\x90"...): dis(s) is None twice is not guaranteed')
     # -------------------------------------------------------------- D5 AT&T mnemonic reader is total
     R5 = report.rule('C10.D5', 'mnemo_from_att, evaluated on every mnemonic-like name x operand shape, returns or raises the documented ValueError', floor=3000)
     from_att_total(ctx, R5, arch)
@@ -759,6 +785,7 @@ def from_att_total(ctx, R, arch):
 
 
 MUTANTS = [
+    ('dis-failure-no-rewind', 'miasmx/arch/ia32_arch.py', "            if init_offset is not None:\n                # nothing was decoded: leave the stream where it was\n                op.offset = init_offset\n", "", 'C10.D4'),
     ('rekey-while-iterating', 'miasmx/arch/ia32_arch.py', "                    for x in list(tmp_order[1]):", "                    for x in tmp_order[1]:", 'C10.D3'),
     ('dis-new-raise', 'miasmx/arch/ia32_arch.py', "            elif afs == reg:\n                mafs = dict(x86mndb.get_afs_re(c&(0xFF^mask_reg)))\n",
      "            elif afs == reg:\n                if m.modifs[w8]: raise ValueError('todo')\n                mafs = dict(x86mndb.get_afs_re(c&(0xFF^mask_reg)))\n", 'C10.D1'),
